@@ -581,7 +581,6 @@ func ruleTileAddressing(w *World, r *Run, h int64) {
 	}
 }
 
-
 // rulePixelTileURLs (C18.c): every string starting with tile/ that the pixel tile reader hands on is
 // tile/<dec t.H>/<dec t.L>/<pad3 t.N>[.p/<dec t.W>] for one requested tile t, the suffix exactly when t.W < 1<<t.H.
 func rulePixelTileURLs(w *World, r *Run) {
